@@ -119,7 +119,7 @@ def gen_plan(streams, tier):
         if lazy and op["k"] in ("set", "clear"):
             op["quiet"] = True
     nnew = sum(1 for op in ops if op["k"] in ("new", "copy"))
-    return {"property": ID, "run_seed": streams.run_seed, "objects": objs[:len(objs) - nnew], "ops": ops}
+    return {"property": ID, "noise": (rnd.randrange(1 << 30) if rnd.random() < 0.2 else None), "run_seed": streams.run_seed, "objects": objs[:len(objs) - nnew], "ops": ops}
 
 
 def corpus():
@@ -181,6 +181,9 @@ def execute(plan, ctx):
     import localcider.sequenceParameters as spmod
     from localcider.sequenceParameters import SequenceParameters
     spmod.print = lambda *a, **k: None
+    if plan.get("noise") is not None:
+        from ..noise import noise_prelude
+        noise_prelude(ctx, plan["noise"])
     fresh = Fresh(SequenceParameters, ctx)
     seqs = list(plan["objects"])
     objs = [SequenceParameters(s) for s in seqs]
